@@ -56,8 +56,10 @@ TpP2(k) == 2^k
 (***************************************************************************)
 (* base meshes                                                             *)
 (***************************************************************************)
-\* kind: "S" structured (mesh.rectilinear), "M" product of two lines with separate spaces,
-\* "C" connected unstructured (multipatch, simplex, mixed)
+\* structure tags: "S" structured (mesh.rectilinear), "H" hierarchical over structured, "C" unstructured with
+\* connectivity (multipatch, simplex, mixed, trimmed or subset of S/C), "HC" hierarchical over C, "X" no
+\* connectivity (take, union of takes, trimmed hierarchical): no boundary or interfaces offered, "M" product
+\* of two lines with separate spaces (only tensorial operations), "MX" take of M (nothing but take)
 BaseRec(name, depth) ==
     LET r == CASE name = "line1"   -> [dim |-> 1, n |-> <<1>>,   per |-> <<FALSE>>, tri |-> FALSE, st |-> "S"]
                [] name = "line2"   -> [dim |-> 1, n |-> <<2>>,   per |-> <<FALSE>>, tri |-> FALSE, st |-> "S"]
@@ -152,7 +154,7 @@ RefineCells(cs, K, ds) == (cs \ ByKeys(cs, K)) \cup UNION {Kids(c, ds) : c \in B
 (* facets of an atom: position (doubled), outward normal, neighbouring atom *)
 (***************************************************************************)
 PosW(p, d) == IF base.per[d] THEN p % (2 * NAtoms(d)) ELSE p
-IdxW(x, d) == IF base.per[d] /\ Mutant # "nowrap" THEN (x + NAtoms(d)) % NAtoms(d) ELSE x
+IdxW(x, d) == IF base.per[d] THEN (x + NAtoms(d)) % NAtoms(d) ELSE x
 Valid(x, d) == IdxW(x, d) \in 0..(NAtoms(d) - 1)
 \* half of square (x, y) that owns its side "L","R","B","T"
 SideHalf(x, y, side) == IF DiagType(x, y) = 0 THEN (IF side \in {"L", "B"} THEN 0 ELSE 1)
@@ -161,13 +163,14 @@ Atom2(x, y, side) == IF ~(Valid(x, 1) /\ Valid(y, 2)) THEN None
                      ELSE IF base.tri THEN <<IdxW(x, 1), IdxW(y, 2), SideHalf(IdxW(x, 1), IdxW(y, 2), side)>>
                      ELSE <<IdxW(x, 1), IdxW(y, 2)>>
 FacetL(i, j) == [p |-> <<PosW(2 * i, 1), 2 * j + 1>>,     n |-> <<-1, 0>>, nb |-> Atom2(i - 1, j, "R")]
-FacetR(i, j) == [p |-> <<PosW(2 * i + 2, 1), 2 * j + 1>>, n |-> <<1, 0>>,  nb |-> Atom2(i + 1, j, "L")]
+FacetR(i, j) == [p |-> <<PosW(2 * i + 2, 1), 2 * j + 1>>, n |-> <<1, 0>>,  nb |-> Atom2(i + 1, IF Mutant = "nb-skew" THEN j + 1 ELSE j, "L")]
 FacetB(i, j) == [p |-> <<2 * i + 1, PosW(2 * j, 2)>>,     n |-> <<0, -1>>, nb |-> Atom2(i, j - 1, "T")]
 FacetT(i, j) == [p |-> <<2 * i + 1, PosW(2 * j + 2, 2)>>, n |-> <<0, 1>>,  nb |-> Atom2(i, j + 1, "B")]
 Facets(a) ==
     IF Dim = 1 THEN
         {[p |-> <<PosW(2 * a[1], 1)>>,     n |-> <<-1>>, nb |-> IF Valid(a[1] - 1, 1) THEN <<IdxW(a[1] - 1, 1)>> ELSE None],
-         [p |-> <<PosW(2 * a[1] + 2, 1)>>, n |-> <<1>>,  nb |-> IF Valid(a[1] + 1, 1) THEN <<IdxW(a[1] + 1, 1)>> ELSE None]}
+         [p |-> <<PosW(2 * a[1] + 2, 1)>>, n |-> <<1>>,
+          nb |-> LET r == IF Mutant = "nb-skew" THEN a[1] + 2 ELSE a[1] + 1 IN IF Valid(r, 1) THEN <<IdxW(r, 1)>> ELSE None]}
     ELSE IF ~base.tri THEN {FacetL(a[1], a[2]), FacetR(a[1], a[2]), FacetB(a[1], a[2]), FacetT(a[1], a[2])}
     ELSE LET i == a[1]
              j == a[2]
@@ -217,7 +220,7 @@ CellMom6(c) == Tup([d \in Dirs |-> TpSumF([a \in c.at |-> Mom6(a, d)], c.at)])
 MkOp(name, a, S, T) == [op |-> name, a |-> a, S |-> S, T |-> T]
 StAfterRefBy(s) == CASE s = "S" -> "H" [] s = "H" -> "H" [] s = "C" -> "HC" [] s = "HC" -> "HC" [] OTHER -> "X"
 StAfterSub(s) == IF s \in {"S", "C"} THEN "C" ELSE "X"
-HasBoundary(s) == s # "X"
+HasBoundary(s) == s \notin {"X", "MX"}
 
 \* pattern subsets: deterministic pseudo random selections of keys
 PatHash(k, s) == LET ix == k[2]
@@ -255,19 +258,20 @@ SliceKeeps(c, d, lo, hi) ==
 \* the operations enabled in the current state, per operation name
 KeysAll == Keys(cells)
 KeysRef == Keys({c \in cells : CanRefine(c, Dirs)})
+IsMul == st \in {"M", "MX"}
 OpsFor(name) ==
     IF name \notin OpSet THEN {}
-    ELSE CASE name = "refine" -> IF KeysRef = KeysAll THEN {MkOp("refine", <<>>, {}, {})} ELSE {}
+    ELSE CASE name = "refine" -> IF KeysRef = KeysAll /\ st # "MX" THEN {MkOp("refine", <<>>, {}, {})} ELSE {}
       [] name = "refspace" ->
            IF st = "M" THEN {MkOp("refspace", <<d>>, {}, {}) : d \in {e \in Dirs : \A c \in cells : CanRefine(c, {e})}} ELSE {}
-      [] name = "refby" -> IF st # "M" THEN {MkOp("refby", <<>>, S, {}) : S \in Subs(KeysRef)} ELSE {}
+      [] name = "refby" -> IF ~IsMul THEN {MkOp("refby", <<>>, S, {}) : S \in Subs(KeysRef)} ELSE {}
       [] name = "hierand" ->
-           IF st # "M" THEN {MkOp("hierand", <<>>, x[1], x[2]) : x \in {y \in Subs1(KeysRef) \X PatSubs(KeysRef) : y[1] # y[2]}} ELSE {}
+           IF ~IsMul THEN {MkOp("hierand", <<>>, x[1], x[2]) : x \in {y \in Subs1(KeysRef) \X PatSubs(KeysRef) : y[1] # y[2]}} ELSE {}
       [] name = "take" -> {MkOp("take", <<>>, S, {}) : S \in Subs(KeysAll) \ {KeysAll}}
-      [] name = "select" -> IF st # "M" THEN {MkOp("select", <<>>, S, {}) : S \in Subs(KeysAll) \ {KeysAll}} ELSE {}
-      [] name = "remove" -> IF st # "M" THEN {MkOp("remove", <<>>, S, {}) : S \in Subs(KeysAll) \ {KeysAll}} ELSE {}
+      [] name = "select" -> IF ~IsMul THEN {MkOp("select", <<>>, S, {}) : S \in Subs(KeysAll) \ {KeysAll}} ELSE {}
+      [] name = "remove" -> IF ~IsMul THEN {MkOp("remove", <<>>, S, {}) : S \in Subs(KeysAll) \ {KeysAll}} ELSE {}
       [] name = "union" ->
-           IF st # "M"
+           IF ~IsMul
            THEN {MkOp("union", <<m>>, x[1], x[2]) : m \in {0, 1},
                     x \in {y \in Subs1(KeysAll) \X PatSubs(KeysAll) : y[1] # y[2]} \cup {<<S, KeysAll \ S>> : S \in Subs1(KeysAll) \ {KeysAll}}}
            ELSE {}
@@ -280,7 +284,7 @@ OpsFor(name) ==
                               /\ \E c \in cells : SliceKeeps(c, y[1], y[2], y[3])}}
            ELSE {}
       [] name = "trim" ->
-           IF st # "M"
+           IF ~IsMul
            THEN {MkOp("trim", <<x[1], x[2], x[3], x[4]>>, {}, {}) :
                     x \in {y \in UNION {{<<d, c, sgn, m>> : c \in 1..(NAtoms(d) - 1), sgn \in {1, -1}, m \in TrimRef} : d \in Dirs} :
                               /\ \E z \in cells : \E a \in z.at : TrimKeep(a, y[1], y[2], y[3])
@@ -302,7 +306,7 @@ Apply(o) ==
                        n |-> Tup([d \in Dirs |-> IF d = e THEN 2 * sg.n[d] ELSE sg.n[d]])]]
       [] o.op = "refby" -> [cells |-> RefineCells(cells, o.S, Dirs), comp |-> {}, st |-> StAfterRefBy(st), sg |-> sg]
       [] o.op = "hierand" -> [cells |-> RefineCells(cells, o.S \cup o.T, Dirs), comp |-> {}, st |-> StAfterRefBy(st), sg |-> sg]
-      [] o.op = "take" -> [cells |-> ByKeys(cells, o.S), comp |-> {}, st |-> "X", sg |-> sg]
+      [] o.op = "take" -> [cells |-> ByKeys(cells, o.S), comp |-> {}, st |-> IF IsMul THEN "MX" ELSE "X", sg |-> sg]
       [] o.op = "select" -> [cells |-> ByKeys(cells, o.S), comp |-> {}, st |-> StAfterSub(st), sg |-> sg]
       [] o.op = "remove" -> [cells |-> cells \ ByKeys(cells, o.S), comp |-> {}, st |-> StAfterSub(st), sg |-> sg]
       [] o.op = "union" ->
@@ -340,6 +344,35 @@ Slice == Len(hist) < MaxOps /\ \E o \in OpsFor("slice") : Step(o)
 Trim == Len(hist) < MaxOps /\ \E o \in OpsFor("trim") : Step(o)
 Next == Refine \/ RefSpace \/ RefBy \/ HierAnd \/ Take \/ Select \/ Remove \/ Union \/ Slice \/ Trim
 Spec == Init /\ [][Next]_vars
+
+(***************************************************************************)
+(* what the model predicts of everything the property observes in a state  *)
+(* (emitted for the replay against the implementation)                     *)
+(***************************************************************************)
+CellObs(cs) == {[key |-> Key(c), v |-> CellVol2(c), m |-> CellMom6(c)] : c \in cs}
+IsTrim == Len(hist) > 0 /\ hist[Len(hist)].op = "trim"
+\* named boundary groups of rectilinear and unitsquare meshes: the sides of the (sliced) box
+SidePlane(d, s) == PosW(2 * (sg.o[d] + (IF s = 1 THEN sg.n[d] ELSE 0)) * TpP2(L - sg.lv[d]), d)
+NowPeriodic(d) == base.per[d] /\ sg.o[d] = 0 /\ sg.n[d] = base.n[d] * TpP2(sg.lv[d])
+SideFacets(d, s) == IF d > Dim \/ NowPeriodic(d) THEN {}
+                    ELSE {f \in Boundary(cells) : /\ f.p[d] = SidePlane(d, s)
+                                                   /\ f.n[d] = (IF s = 1 THEN 1 ELSE -1)
+                                                   /\ \A e \in Dirs \ {d} : f.n[e] = 0}
+HasGroups == HasBoundary(st) /\ base.st # "M" /\ base.name \notin {"mp21", "mp42"}
+Prediction ==
+    LET bd == HasBoundary(st)
+    IN [st |-> st, bd |-> bd, vol2 |-> Vol2(cells),
+        hasG |-> HasGroups,
+        G |-> IF HasGroups THEN [left |-> SideFacets(1, 0), right |-> SideFacets(1, 1), bottom |-> SideFacets(2, 0), top |-> SideFacets(2, 1)]
+              ELSE [left |-> {}, right |-> {}, bottom |-> {}, top |-> {}],
+        cells |-> CellObs(cells),
+        B |-> IF bd THEN Boundary(cells) ELSE {},
+        I |-> IF bd THEN Interfaces(cells) ELSE {},
+        trim |-> IsTrim,
+        ccells |-> CellObs(comp),
+        cB |-> IF bd /\ IsTrim THEN Boundary(comp) ELSE {},
+        cI |-> IF bd /\ IsTrim THEN Interfaces(comp) ELSE {},
+        cut |-> IF bd /\ IsTrim THEN CutFacets(cells, comp) ELSE {}]
 
 (***************************************************************************)
 (* the property                                                            *)
